@@ -106,7 +106,7 @@ func c01(c *Ctx) {
 				g.Inputs = append(g.Inputs, in)
 				c.Count("grammar with a nonterminal used as two inputs")
 			}
-			o := TMOpts{ArrowPerRule: true, Optimize: c.Rng.Intn(2) == 0, Minimize: c.Rng.Intn(3) == 0, Markers: c.Rng.Intn(2) == 0}
+			o := TMOpts{ArrowPerRule: true, Optimize: c.Rng.Intn(2) == 0, Minimize: c.Rng.Intn(3) == 0, Markers: c.Rng.Intn(2) == 0, Extend: c.Rng.Intn(3) == 0}
 			o.DefaultReduce = o.Optimize && c.Rng.Intn(2) == 0
 			name := fmt.Sprintf("g%d", done+k)
 			gp := compileTM(name, g.TM(name, o), o)
